@@ -87,9 +87,10 @@ PROPS.update({
     },
     "C12": {
         "level": "fault_enumeration",
+        "real_binary_signal": True,
         "parts": [{"engine": "fault", "profile": "c12", "weight": 3}, {"engine": "sched", "profile": "c12s", "weight": 1}, {"engine": "cli", "profile": "cli12", "weight": 1}],
         "rule": "for each sampled world (1..4 parallel tasks + 0..3 waiting stages, hooks, conditions, contexts (an `up` command fails with p=1/8: its tasks fail before running anything and a later Cancel must still return), processes that die at once or ignore the interrupt until killed) and its base schedule, Cancel is injected at EVERY controller step index 0..23 (index mod 24; beyond the end of the run = after everything returned), via TaskRunner.Cancel or Scheduler.Cancel, optionally a second Cancel, or from a stage-condition error (also in the middle of the run: a nested pipeline whose stage condition cannot be evaluated is started while 1..3 stages outside and 0..2 inside it have long commands in flight - every sixth world); SCHED part: same enumeration (16 positions) against the stub Runner; CLI part: abort() - what the signal handler calls - at every step of command-line runs of 1..4 targets (the application's own cancel goroutines drive TaskRunner.Cancel and Scheduler.Cancel; when and in which order they act after abort() is a seeded choice): the invocation returns, running commands are interrupted, an interrupted invocation returns an error. distinct = canonical event-log hash; all runs are non-trivial (a fault fires in each)",
-        "assumptions": _INTEG_ASSUME + ["condition and context service commands run under context.Background() by design and are exempt from 'terminates the commands that are running'"],
+        "assumptions": _INTEG_ASSUME + ["condition and context service commands run under context.Background() by design and are exempt from 'terminates the commands that are running'", "main()'s signal handler (abort() followed by os.Exit) is outside the simulation; it is probed once per check with the real binary and a real signal (real_binary_signal_probe in the evidence; known finding D10)"],
     },
     "C08": {
         "level": "exploration",
